@@ -12,7 +12,9 @@ Binding
      PyramidIO.tile_path must give exactly those names, all distinct.
  (b) code -> spec: the real workflows (tile-study, tile-allsky, cascade, tile-multi-tan, tile_fits TAN/TOAST with one
      and with several inputs - multi-TAN on one grid, multi-WCS, and TOAST collections of images of different pixel
-     scales in every input order -, `toasty view --tile-only --tiling-method toast`, pipeline process_todos)
+     scales in every input order -, `toasty view --tile-only --tiling-method toast`, pipeline process_todos, and the
+     library route Builder(PyramidIO(scheme)) under BOTH naming schemes; image sizes go down to a single tile and a single
+     pixel (1x1, 200x150, 256x256, 257x100) in every one of the study routes)
      are run on small synthetic inputs with PyramidIO.write_image / Image.save observed (which position was saved
      under which name); the observation (Url, FileType, TileLevels of index_rel.wtml, the tile files found, the
      saves) is handed to TLC, which evaluates the property's sentences (Judge).
@@ -124,7 +126,12 @@ PIPELINE_ITEM = {
 def make_inputs(d, quick):
     inp = {}
     for name, (w, h, ext) in {"study_png": (700, 500, "png"), "study_jpg": (520, 300, "jpg"), "sky": (64, 32, "png"),
-                              "pipe": (600, 400, "jpg"), "study_wide": (1030, 200, "png")}.items():
+                              "pipe": (600, 400, "jpg"), "study_wide": (1030, 200, "png"),
+                              # images that fit in ONE tile (a pyramid of level 0 only), down to a single pixel, the largest
+                              # such image, and the smallest one that does not fit
+                              "px1": (1, 1, "png"), "small": (200, 150, "jpg"), "one_tile": (256, 256, "png"),
+                              "two_tiles": (257, 100, "png"), "pipe_small": (200, 150, "jpg"), "pipe_one_tile": (256, 256, "jpg"),
+                              }.items():
         inp[name] = os.path.join(d, "%s.%s" % (name, ext))
         _mkimg(inp[name], w, h)
     # name: (width, height, degrees per pixel, ra, dec)
@@ -136,6 +143,9 @@ def make_inputs(d, quick):
                                       # three tiny images whose pixel scales map to the natural TOAST levels 3, 2 and 1
                                       # (guess_base_layer_level: 21.095'/2^(n-1) per pixel); collections of them must be
                                       # sampled at the common (finest) level whatever the input order
+                                      # a tiny image of 3"/pixel: forced TOAST gives a sparse pyramid 10 levels deep (level
+                                      # names of two digits); S: a FITS image that fits in one TAN tile
+                                      "P": (8, 8, 3.0 / 3600, 80.0, -20.0), "S": (8, 8, 0.001, 10.0, 20.0),
                                       "F": (40, 32, 0.1, 50.0, 10.0), "G": (36, 30, 0.25, 53.0, 12.0), "H": (30, 24, 0.5, 56.0, 8.0),
                                       }.items():
         inp[name] = os.path.join(d, "%s.fits" % name)
@@ -261,9 +271,16 @@ def _pipeline_step(workdir, image_path):
     from toasty import cli, pipeline
     from toasty.pipeline import astropix
 
+    from PIL import Image as PI
+    with PI.open(image_path) as im:
+        iw, ih = im.size
+    item = dict(PIPELINE_ITEM)      # the astrometry is declared for the image's own dimensions (square pixels)
+    item.update({"wcs_reference_dimension": ["%d.0" % iw, "%d.0" % ih], "wcs_reference_pixel": ["%.1f" % (iw / 2), "%.1f" % (ih / 2)],
+                 "image_width": str(iw), "image_height": str(ih), "image_max_boundry": str(max(iw, ih))})
+
     class Source(astropix.AstroPixImageSource):
         def query_candidates(self):
-            yield astropix.AstroPixCandidateInput(dict(PIPELINE_ITEM))
+            yield astropix.AstroPixCandidateInput(dict(item))
 
         def fetch_candidate(self, unique_id, cand_data_stream, cachedir):
             shutil.copy(image_path, os.path.join(cachedir, "image.jpg"))
@@ -279,6 +296,25 @@ def _pipeline_step(workdir, image_path):
     cli.entrypoint(["pipeline", "fetch", "--workdir", wk, "fake_test1"])
     cli.entrypoint(["pipeline", "process-todos", "--workdir", wk])
     return os.path.join(wk, "processed", "fake_test1")
+
+
+def _builder_study(outdir, arg):
+    """The library route of the study workflows: a Builder over a PyramidIO of the given naming scheme."""
+    from toasty.builder import Builder
+    from toasty.image import ImageLoader
+    from toasty.pyramid import PyramidIO
+    img = ImageLoader().load_path(arg["image"])
+    bld = Builder(PyramidIO(outdir, scheme=arg["scheme"], default_format=img.default_format))
+    if arg["mode"] == "base":                    # what the pipeline's image sources do
+        bld.tile_base_as_study(img)
+        bld.default_tiled_study_astrometry()
+    else:                                        # what tile-study does
+        tiling = bld.prepare_study_tiling(img)
+        bld.default_tiled_study_astrometry()
+        bld.execute_study_tiling(img, tiling)
+    bld.cascade(parallel=1)
+    bld.set_name("study")
+    bld.write_index_rel_wtml()
 
 
 def _spell(outdir, style):
@@ -325,6 +361,8 @@ def run_workflow(wf):
                         cli.entrypoint(["cascade", "--start", str(int(lv)), "-j", "1", outdir])
                     elif kind == "pipeline":
                         outdir = _pipeline_step(wf["outdir"], arg["image"])
+                    elif kind == "builder-study":
+                        _builder_study(outdir, arg)
                     elif kind == "tile_fits":
                         existed = os.path.isdir(outdir)
                         given = _spell(outdir, wf.get("path_style", "abs"))
@@ -496,9 +534,11 @@ def run(ctx):
         ctx.note("t_" + what, round(time.time() - t0, 1))
     ctx.rule = ("(a) positions = every (level, x, y) to depth 4 (thorough 5) plus seeded positions on levels 5..12 incl. the "
                 "corners, for both schemes and every supported format; (b) workflows on synthetic inputs (single images, multi-input TAN, "
-                "multi-input TOAST collections of different pixel scales in every input order), one observation per step; (c) histories of the tile_fits machine explored to 4 calls: thorough replays every 4-call history, quick every 3-call history "
+                "multi-input TOAST collections of different pixel scales in every input order, single-tile and single-pixel images under both "
+                "naming schemes), one observation per step; (c) histories of the tile_fits machine explored to 4 calls: thorough replays every 4-call history, quick every 3-call history "
                 "plus the family fresh(X), reuse, override(Y#X), reuse and a seeded sample of other 4-call histories (prefixes are "
-                "checked after each call); out_dir spelled absolute / relative / x/../out in turn. distinct = distinct (scheme, format, position) / observation / history")
+                "checked after each call); the inputs include a 10-level pyramid so that directory states with two-digit level names are "
+                "overridden and reused; out_dir spelled absolute / relative / x/../out in turn. distinct = distinct (scheme, format, position) / observation / history")
     indir = ctx.mkdtemp("inputs")
     inp = make_inputs(indir, quick)
 
@@ -530,7 +570,21 @@ def run(ctx):
     for o in toast_orders:
         FITS_INPUTS["M" + "".join(o)] = ([inp[x] for x in o], "TOAST")
     multi_toast = ["MFG", "MGF", "MFHG", "MHGF", "MGFH"] if quick else ["M" + "".join(o) for o in toast_orders]
-    hist_inputs = ["A", "MFG"] if quick else ["A", "B", "C", "MFHG"]
+    FITS_INPUTS["P"] = (inp["P"], "TOAST")          # 10 levels deep
+    FITS_INPUTS["PA"] = (inp["P"], "AUTO_DETECT")    # the same image fits in one TAN tile
+    FITS_INPUTS["S"] = (inp["S"], "AUTO_DETECT")     # single TAN tile
+    # the history inputs include a pyramid deeper than 9 levels, so that histories pass through directory states whose
+    # level names have more than one digit before an override / a reuse
+    hist_inputs = ["A", "MFG", "P"] if quick else ["A", "C", "MFHG", "P"]
+
+    def builder_study(scheme, image, mode):
+        return wf("builder-%s-%s-%s" % (scheme.replace("/", ""), image, mode),
+                  [("builder-study", {"scheme": scheme, "image": inp[image], "mode": mode})], "builder-study-" + scheme)
+
+    def cli_study_small(name, image, extra=()):
+        w = wf(name, None, "tile-study")
+        w["steps"] = [("cli", ["tile-study", "--outdir", w["outdir"]] + list(extra) + [inp[image]]), ("cascade-recorded", None)]
+        return w
     maxlen = 4
 
     def cli_view_toast(name, order):
@@ -558,7 +612,19 @@ def run(ctx):
              cli_allsky("allsky-d2", 2, "plate-carree"),
              wf("pipeline", [("pipeline", {"image": inp["pipe"]})], "pipeline"),
              cli_view_toast("view-toast-FG", "FG"), cli_view_toast("view-toast-GHF", "GHF"),
-             cli_multi_tan("multi-tan-N1N2", ["N1", "N2"])]
+             cli_multi_tan("multi-tan-N1N2", ["N1", "N2"]),
+             # single-tile (and just-larger) images under every naming scheme and entry point
+             cli_study_small("study-small", "small"), cli_study_small("study-px1", "px1", ["--placeholder-thumbnail"]),
+             wf("pipeline-small", [("pipeline", {"image": inp["pipe_small"]})], "pipeline")]
+    small_combos = [(sch, im, mode) for sch in ("L/Y/YX", "LXY") for im in ("px1", "small", "one_tile", "two_tiles")
+                    for mode in ("base", "prepare")]
+    if quick:        # every scheme x image, the two entry points alternating
+        small_combos = [c for n, c in enumerate(c for c in small_combos if c[2] == "base") if n % 2 == 0] + \
+                       [c for n, c in enumerate(c for c in small_combos if c[2] == "prepare") if n % 2 == 1]
+    flows += [builder_study(*c) for c in small_combos]
+    if not quick:
+        flows += [cli_study_small("study-one-tile", "one_tile"), cli_study_small("study-two-tiles", "two_tiles"),
+                  wf("pipeline-one-tile", [("pipeline", {"image": inp["pipe_one_tile"]})], "pipeline")]
     if not quick:
         flows += [cli_view_toast("view-toast-" + "".join(o), o) for o in toast_orders if "".join(o) not in ("FG", "GHF")]
         flows += [cli_multi_tan("multi-tan-N2N1", ["N2", "N1"])]
@@ -566,9 +632,9 @@ def run(ctx):
         flows += [cli_study("study-wide", inp["study_wide"], 3),
                   cli_allsky("allsky-d3-planet", 3, "plate-carree-planet"),
                   cli_allsky("allsky-d1-galactic", 1, "plate-carree-galactic")]
-    fits_single = ["A", "B", "C", "T", "N"] + multi_toast + ([] if quick else ["D", "E", "NR"])
+    fits_single = ["A", "B", "C", "T", "N", "S", "PA", "P"] + multi_toast + ([] if quick else ["D", "E", "NR"])
     for i in sorted(set(fits_single) | set(hist_inputs)):
-        toast = i in ("C", "T") or i.startswith("M")
+        toast = i in ("C", "T", "P") or i.startswith("M")
         flows.append(wf("fits-" + i, [fits_call(i)], "tile_fits-toast" if toast else "tile_fits-tan"))
 
     def _checks(pool, pending):
@@ -674,12 +740,15 @@ def run(ctx):
             return (len(h) == 4 and [st["kind"] for st in h] == ["fresh", "reuse", "override", "reuse"]
                     and h[2]["input"] != h[0]["input"])
         if quick:
-            h4 = [h for h in allh if len(h) == 4]
-            family = [h for h in h4 if stale_shape(h)]
-            rest = [h for h in h4 if not stale_shape(h)]
+            # (the 10-level input costs ~1 s per tiling: its 3-call histories are sampled, the family below has it in
+            # both roles - as the deep earlier state that is overridden, and as the new content)
+            core = set(hist_inputs[:2])
+            family = [h for h in allh if stale_shape(h)]
+            base3 = [h for h in allh if len(h) == 3 and set(st["input"] for st in h) <= core]
+            rest = [h for h in allh if not stale_shape(h) and h not in base3]
             picked = family + rng.sample(rest, min(8, len(rest)))
-            covered = set(tuple(hkey(h)[:3]) for h in picked)
-            hists = [h for h in allh if len(h) == 3 and tuple(hkey(h)) not in covered] + picked
+            covered = set(tuple(hkey(h)[:3]) for h in picked if len(h) == 4)
+            hists = [h for h in base3 if tuple(hkey(h)) not in covered] + picked
             if not family:
                 ctx.machinery("the machine generated no history of the shape fresh, reuse, override(other input), reuse")
         else:
@@ -851,6 +920,10 @@ def _step_text(step):
         return "tile_fits(%s%s)" % (arg["input"], ", override=True" if arg["override"] else "")
     if kind == "cascade-recorded":
         return "toasty cascade --start <recorded TileLevels>"
+    if kind == "builder-study":
+        return "Builder(PyramidIO(scheme=%s)) %s study of %s" % (arg["scheme"], arg["mode"], os.path.basename(arg["image"]))
+    if kind == "pipeline":
+        return "pipeline process-todos of %s" % os.path.basename(arg["image"])
     return kind
 
 
